@@ -65,7 +65,8 @@ from core import Eval
 
 PROPERTY = "C08"
 DRIVER = "drv_c08"
-PROPS = ["PartituraModel.Props.C08"]
+PROPS = ["PartituraModel.Props.C08", "PartituraModel.Props.C08Mixed", "PartituraModel.Props.C08Order",
+         "PartituraModel.Props.C08Format"]
 TRUSTED = [
     "C07 (line level): the text of a line <-> its fields; the correspondence reads the written text with its own "
     "regular expressions and the reader's input with the real line parsers",
@@ -309,11 +310,15 @@ def gen_case(rng, tier="quick"):
 
     p_match = rng.choice([0.5, 0.7, 0.9, 1.0])
     p_del = rng.choice([0.0, 0.5, 1.0])
+    few = rng.random()
+    if few < 0.05:
+        p_match, p_del = 0.0, rng.choice([0.5, 1.0])      # no match at all: deletions and insertions only
+    one_match = 0.05 <= few < 0.08                         # a single match: the time map has one point (NaN keys)
     for sid in sids:
         n = byid[sid]
         r = rng.random()
         tq = n["t"] / divs
-        if r < p_match:
+        if r < p_match and not (one_match and any(a["label"] == "match" for a in align)):
             pid = new_pid()
             notes.append(perf_note(pid, midi(n), t0 + tq * spq + rng.uniform(-0.03, 0.03), tied_dur(n) / divs * spq * rng.uniform(0.3, 1.1)))
             align.append({"label": "match", "score_id": sid, "performance_id": pid})
@@ -326,7 +331,7 @@ def gen_case(rng, tier="quick"):
             inbar = [s for s in sids if ms <= byid[s]["t"] < me]
             if inbar and not any(s in stored for s in inbar):
                 sid = rng.choice(inbar)
-                if rng.random() < 0.5:
+                if rng.random() < 0.5 or p_match == 0.0 or one_match:
                     align.append({"label": "deletion", "score_id": sid})
                 else:
                     n = byid[sid]
@@ -357,25 +362,22 @@ def gen_case(rng, tier="quick"):
 
 
 def domain_ok(desc):
-    """at least two distinct score onsets with a matched non-grace note and distinct mean performed onsets"""
+    """at least one stored score note; the score onsets that carry a matched non-grace note have distinct mean
+    performed onsets (fewer than two such onsets: no time map, the keys of the performed-only lines are NaN)"""
     pd = desc["part"]
     byid = {n["id"]: n for n in pd["notes"]}
     pn = {n["id"]: n for n in desc["perf"]["notes"]}
     import numpy as np
 
     groups = {}
-    anym = False
     for a in desc["align"]:
         if a["label"] == "match":
-            anym = True
             n = byid[a["score_id"]]
             if n["kind"] == "note":
                 groups.setdefault(n["t"], []).append(float(np.float32(pn[a["performance_id"]]["on"])))
-    if not anym:
+    if not any(a["label"] in ("match", "deletion") for a in desc["align"]):
         return False
     means = sorted(sum(v) / len(v) for v in groups.values())
-    if len(means) < 2:
-        return False
     return all(b - a > 1e-4 for a, b in zip(means, means[1:]))
 
 
@@ -396,6 +398,13 @@ def cases(rng, tier):
         yield desc
         if made % 4 == 0:
             yield {"k": "dedup", "base": desc, "seed": rng.randint(0, 2**31)}
+        if made % 3 == 0:
+            # the loading half on the older formats: the same content written with the line classes of matchlines_v0
+            yield {"k": "v0", "base": desc, "version": list(rng.choice(V0_VERSIONS)), "seed": rng.randint(0, 2**31),
+                   "dedup": rng.randint(0, 2**31) if rng.random() < 0.25 else None}
+        if made % 7 == 0:
+            # empty lines anywhere (also before the version line) change nothing: the reader skips them
+            yield {"k": "blank", "base": desc, "at": ([0] if rng.random() < 0.6 else []) + [rng.randint(0, 40) for _ in range(rng.randint(0, 3))]}
 
 
 # ====================================================================== running the implementation
@@ -481,6 +490,156 @@ def save_and_load(desc, edit_text=None):
     return res
 
 
+V0_VERSIONS = [(0, 1, 0), (0, 2, 0), (0, 3, 0), (0, 4, 0), (0, 5, 0)]
+
+
+def v0_version(desc):
+    """the version a v0 case is written in: versions before 0.3.0 have no meta lines, hence hold one time and one
+    key signature only; cases with a change after the first stored note go to 0.3.0 - 0.5.0"""
+    base = desc["base"]
+    v = tuple(desc["version"])
+    pd = base["part"]
+    byid = {n["id"]: n for n in pd["notes"]}
+    stored = [byid[a["score_id"]]["t"] for a in base["align"] if a["label"] in ("match", "deletion")]
+    o_first = min(stored)
+    later = 0
+    for src, val in ((sorted(pd["ts"]), lambda x: (x[1], x[2])), (sorted(pd["ks"]), lambda x: (x[1], x[2] or "major"))):
+        src = [x for x in src if any(ms <= x[0] < me for ms, me, _ in pd["measures"])]
+        prev = None
+        for x in src:
+            if x[0] > o_first and val(x) != prev:
+                later += 1
+            prev = val(x)
+    if later and v < (0, 3, 0):
+        v = (0, 3 + desc["seed"] % 3, 0)
+    return v
+
+
+def synth_v0(desc):
+    """Text lines of a version-0.x match file with the content of the 1.0.0 export of the base case: the line
+    objects the exporter builds are re-expressed with the line classes of matchlines_v0 (same field values);
+    signatures become one global info line (the signature in force at the first stored note) plus meta lines for
+    later changes; ornaments become trill lines; deletions / insertions use the old sub-kinds at random."""
+    from partitura.io import matchlines_v0 as V0, matchlines_v1 as V1
+    from partitura.io.matchfile_utils import Version, MatchKeySignature, MatchTimeSignature
+    from partitura.io.exportmatch import matchfile_from_alignment
+    import partitura.utils.music as MU
+
+    base = desc["base"]
+    vt = v0_version(desc)
+    version = Version(*vt)
+    rng = random.Random(desc["seed"])
+    part = build_part(base["part"])
+    ppart = build_perf(base)
+    mf = quiet(matchfile_from_alignment, [dict(a) for a in base["align"]], ppart, part, mpq=base["mpq"], ppq=base["ppq"],
+               assume_part_unfolded=True)
+    first_onset = min(l.snote.OnsetInBeats for l in mf.lines if hasattr(l, "snote"))
+
+    def info(attr, value):
+        _, fmt, typ = V0.INFO_LINE[version][attr]
+        return V0.MatchInfo(version=version, attribute=attr, value=value, value_type=typ, format_fun=fmt)
+
+    def sigval(l):
+        if l.Attribute == "timeSignature":
+            return MatchTimeSignature(int(l.Value.numerator), int(l.Value.denominator), other_components=[], is_list=False)
+        return MatchKeySignature(fifths=l.Value.fifths, mode=l.Value.mode, is_list=False, fmt="v0.3.0")
+
+    def snote(s_):
+        return V0.MatchSnote(version=version, anchor=s_.Anchor, note_name=s_.NoteName, modifier=s_.Modifier, octave=s_.Octave,
+                             measure=s_.Measure, beat=s_.Beat, offset=s_.Offset, duration=s_.Duration,
+                             onset_in_beats=s_.OnsetInBeats, offset_in_beats=s_.OffsetInBeats,
+                             score_attributes_list=list(s_.ScoreAttributesList))
+
+    def note(n):
+        step, alter, octv = MU.midi_pitch_to_pitch_spelling(n.MidiPitch)
+        return V0.MatchNote(version=version, id=n.Id, note_name=step, modifier=alter, octave=octv, onset=n.Onset,
+                            offset=n.Offset, velocity=n.Velocity)
+
+    out = []
+    for attr in ("keySignature", "timeSignature"):
+        sig = [l for l in mf.lines if isinstance(l, V1.MatchScoreProp) and l.Attribute == attr]
+        sig.sort(key=lambda l: l.TimeInBeats)
+        # collapse equal neighbours (as MatchFile.time_signatures does), find the one in force at the first stored note
+        coll = []
+        for l in sig:
+            if not coll or not (coll[-1].Value == l.Value):
+                coll.append(l)
+        inforce = max([i for i, l in enumerate(coll) if l.TimeInBeats <= first_onset], default=None)
+        sig_out = []
+        for i, l in enumerate(coll):
+            if inforce is not None and i < inforce:
+                continue
+            if i == inforce:
+                sig_out.append(info(attr, sigval(l)))
+            else:
+                _, fmt, typ = V0.META_LINE[version][attr]
+                sig_out.append(V0.MatchMeta(version=version, attribute=attr, value=sigval(l), value_type=typ, format_fun=fmt,
+                                            measure=l.Measure, time_in_beats=l.TimeInBeats))
+        out.append((attr, sig_out))
+    lines = []
+    for l in mf.lines:
+        if isinstance(l, V1.MatchInfo):
+            lines.append(info("matchFileVersion", version) if l.Attribute == "matchFileVersion" else info(l.Attribute, l.Value))
+        elif isinstance(l, V1.MatchScoreProp):
+            for attr, so in out:
+                if so is not None and attr == l.Attribute:
+                    lines += so
+            out = [(a, None if a == l.Attribute else so) for a, so in out]
+        elif isinstance(l, V1.MatchSnoteNote):
+            lines.append(V0.MatchSnoteNote(version=version, snote=snote(l.snote), note=note(l.note)))
+        elif isinstance(l, V1.MatchSnoteDeletion):
+            cls = rng.choice([V0.MatchSnoteDeletion, V0.MatchSnoteDeletion, V0.MatchSnoteTrailingScore, V0.MatchSnoteNoPlayedNote])
+            lines.append(cls(version=version, snote=snote(l.snote)))
+        elif isinstance(l, V1.MatchInsertionNote):
+            cls = rng.choice([V0.MatchInsertionNote, V0.MatchInsertionNote, V0.MatchHammerBounceNote, V0.MatchTrailingPlayedNote])
+            lines.append(cls(version=version, note=note(l.note)))
+        elif isinstance(l, V1.MatchOrnamentNote):
+            lines.append(V0.MatchTrillNote(version=version, anchor=l.Anchor, note=note(l.note)))
+        elif isinstance(l, V1.MatchSustainPedal):
+            lines.append(V0.MatchSustainPedal(version=version, time=l.Time, value=l.Value))
+        elif isinstance(l, V1.MatchSoftPedal):
+            lines.append(V0.MatchSoftPedal(version=version, time=l.Time, value=l.Value))
+        else:
+            raise ValueError("unexpected line %r" % type(l).__name__)
+    return [x.matchline for x in lines], part, ppart
+
+
+def eval_v0(desc, ev):
+    """loading half on a synthesised old-format file: alignment, performance, score as the property states"""
+    base = desc["base"]
+    res = {}
+    try:
+        text, part, ppart = synth_v0(desc)
+    except Exception as e:
+        # the file could not be synthesised (the writer classes of the old format failed): nothing to load
+        ev.info["synth_error"] = "%s: %s" % (type(e).__name__, e)
+        ev.key = None
+        return ev
+    res["spart"], res["ppart"] = part, ppart
+    if desc.get("dedup") is not None:
+        text = dedup_edit(desc["dedup"], generic=True)(text)
+    res["text"] = text
+    with tempfile.TemporaryDirectory(prefix="c08-") as td:
+        fn = os.path.join(td, "x.match")
+        with open(fn, "w") as f:
+            f.write("\n".join(text) + "\n")
+        load_all(fn, res)
+    vt = v0_version(desc)
+    if desc.get("dedup") is not None:
+        ev.oracle = oracle_load(text, res, "v0-dedup")
+        corr_load(text, res.get("mf_lines"), ev)
+        ev.key = "v0dedup:%s:%s:%s" % (base.get("sub"), desc["seed"], ".".join(map(str, vt)))
+    else:
+        ev.oracle = ["v0 %s: %s" % (".".join(map(str, vt)), f) for f in oracle_load(text, res, "lines")]
+        ev.oracle += oracle_rt(base, res, v0=True)
+        corr_load(text, res.get("mf_lines"), ev)
+        if "score" in res:
+            corr_dec(text, res, ev)
+        ev.key = "v0:%s:%s" % (base.get("sub"), ".".join(map(str, vt)))
+    ev.info["v0"] = ".".join(map(str, vt))
+    return ev
+
+
 # ====================================================================== oracle
 def canon_align(al):
     out = []
@@ -492,14 +651,16 @@ def canon_align(al):
     return sorted(out, key=repr)
 
 
-def oracle_rt(desc, res):
+def oracle_rt(desc, res, v0=False):
+    """v0: the file is a synthesised version-0.x file (no text clauses; every ornament is a trill; the time/key
+    signature in force at the first stored note is a global info line without a position)"""
     import numpy as np
     import partitura.score as S
 
     F = []
     if "save_error" in res:
         return ["save: writing the match file raised %s" % res["save_error"]]
-    if "load_error2" in res or "perf" not in res:
+    if ("load_error2" in res or "perf" not in res) and not v0:
         F += oracle_text(desc, res)
     if "load_error" in res:
         F.append("load: load_match(create_score=True) raised %s" % res["load_error"])
@@ -507,9 +668,10 @@ def oracle_rt(desc, res):
         F.append("load: load_match(create_score=False) raised %s" % res["load_error2"])
         return F
     ppq, mpq = desc["ppq"], desc["mpq"]
-    F += oracle_text(desc, res)
+    if not v0:
+        F += oracle_text(desc, res)
     # ---- alignment
-    want = canon_align(desc["align"])
+    want = canon_align([dict(a, type="trill") if v0 and a["label"] == "ornament" else a for a in desc["align"]])
     got = canon_align(res["align"])
     if want != got:
         miss = [x for x in want if x not in got]
@@ -585,7 +747,7 @@ def oracle_rt(desc, res):
         return F
     if not grid_ok(desc):
         return F
-    F += oracle_quarters(desc, res, stored)
+    F += oracle_quarters(desc, res, stored, v0)
     if not bars_covered(desc):
         return F
     sbm, lbm = sp.beat_map, lpart.beat_map
@@ -654,11 +816,11 @@ def oracle_rt(desc, res):
                 F.append("measure: saved measure starting at beat %r (holds stored notes) has no loaded measure there; loaded starts %r" % (mb, lmeas_b[:8]))
             else:
                 lt = hit[0]
-                if cur_ts is not None and cur_ts != prev_ts:
+                if cur_ts is not None and cur_ts != prev_ts and not v0:
                     if tuple(cur_ts) not in l_ts.get(lt, []):
                         F.append("timesig: %r written at the bar starting at beat %r, loaded time signatures there: %r (all: %r)" % (
                             cur_ts, mb, l_ts.get(lt), sorted(l_ts.items())[:6]))
-                if ms in ks_at and (ks_at[ms][0], ks_at[ms][1] or "major") != prev_ks:
+                if ms in ks_at and (ks_at[ms][0], ks_at[ms][1] or "major") != prev_ks and not v0:
                     f, m = ks_at[ms]
                     m = m or "major"
                     if (f, m) not in l_ks.get(lt, []):
@@ -710,9 +872,10 @@ def oracle_text(desc, res):
     return F
 
 
-def oracle_quarters(desc, res, stored):
+def oracle_quarters(desc, res, stored, v0=False):
     """positions in quarters from the loaded origin (first stored note if it is not after beat 0, else beat 0):
-    independent of the loaded measure structure"""
+    independent of the loaded measure structure.  v0: the signature in force at the first stored note is a global
+    info line; it is demanded at the loaded origin, earlier ones not at all"""
     import partitura.score as S
 
     F = []
@@ -757,12 +920,17 @@ def oracle_quarters(desc, res, stored):
             if val(x) != prev:
                 changes.append(x)
             prev = val(x)
+        inforce = max([i for i, x in enumerate(changes) if x[0] <= o_first], default=None)
         for i, x in enumerate(changes):
             v = val(x)
             if i + 1 < len(changes) and changes[i + 1][0] <= o_ref:
                 continue       # replaced before (or at) the loaded origin: not part of the loaded score
+            if v0 and inforce is not None and i < inforce:
+                continue       # not in the file: replaced before the first stored note
             if True:
                 q = max(Fraction(0), Fraction(x[0] - o_ref, divs))
+                if v0 and i == inforce:
+                    q = Fraction(0)      # a global line: in force from the loaded origin (fix C08-14)
                 if v not in loaded.get(q, []):
                     F.append("%s: %r written %s quarters after the origin, loaded there: %r (all: %r)" % (
                         "timesig-q" if cls is S.TimeSignature else "keysig-q", v, q, loaded.get(q), sorted(loaded.items())[:6]))
@@ -956,6 +1124,10 @@ def corr_rt(desc, res, ev):
     kx = sorted((sum(v) / len(v), float(beats_exact(pd, t))) for t, v in knots.items())
 
     def p2s(x):
+        if len(kx) == 0:
+            return float("nan")     # no time map (fix C08-13): NaN sorts last
+        if len(kx) == 1:
+            return kx[0][1]         # partitura.utils.generic.interp1d: one point -> that value everywhere
         xs = [k[0] for k in kx]
         i = min(max(int(np.searchsorted(xs, x)), 1), len(xs) - 1)
         (a, ya), (b, yb) = kx[i - 1], kx[i]
@@ -1000,7 +1172,7 @@ def corr_rt(desc, res, ev):
             order.append(entry_index(ln))
     body = "%s %s" % (W.lst(lambda x: x, pairs), W.lst(lambda x: x, ents))
     ev.requests.append("ordk " + body)
-    ev.impl.append(("@approx", sorted(k for _, k in keys_f), 2e-4))
+    ev.impl.append(("@approx", sorted(k for _, k in keys_f if k == k) + [k for _, k in keys_f if k != k], 2e-4))
     if safe:
         ev.requests.append("ordi " + body)
         ev.impl.append(W.f_list(str, order))
@@ -1033,7 +1205,7 @@ def corr_rt(desc, res, ev):
             ev.impl.append(("@approx", secs, 1e-9))
     corr_load(text, res.get("mf_lines"), ev)
     if "score" in res:
-        corr_dec(text, res, ev)
+        corr_dec(text, res, ev, desc)
 
 
 def classify(line):
@@ -1086,8 +1258,10 @@ def corr_load(text, mf_lines, ev):
     return sidn, pidn
 
 
-def corr_dec(text, res, ev):
-    """score reconstruction: snote / signature lines of the text -> model; loaded part -> implementation"""
+def corr_dec(text, res, ev, desc=None):
+    """score reconstruction: snote / signature lines of the text -> model; loaded part -> implementation.
+    With the case description also END TO END: saved score + stored notes -> model's write-then-read
+    (`Score.roundTrip`) against the same loaded part"""
     import partitura.score as S
 
     lpart = res["score"][0]
@@ -1115,10 +1289,12 @@ def corr_dec(text, res, ev):
     ksl = mf.key_signatures
     if not tsl:
         return
+    # a global signature line of the older formats lies in no bar (fix C08-14): a bar number no note carries
+    nobar = min(int(x.Measure) for x in sn) - 1
     body = "%s %s %s" % (
         W.lst(sn_tok, sn),
-        W.lst(lambda t: "%s %d %d %d" % (W.q(Fraction(repr(float(t[0])))), t[1], t[2].numerator, t[2].denominator), tsl),
-        W.lst(lambda t: "%s %d" % (W.q(Fraction(repr(float(t[0])))), t[1]), ksl))
+        W.lst(lambda t: "%s %d %d %d" % (W.q(Fraction(repr(float(t[0])))), nobar if t[1] is None else t[1], t[2].numerator, t[2].denominator), tsl),
+        W.lst(lambda t: "%s %d" % (W.q(Fraction(repr(float(t[0])))), nobar if t[1] is None else t[1]), ksl))
     # implementation side
     divs = int(lpart._quarter_durations[0])
     meas = sorted(lpart.iter_all(S.Measure), key=lambda m: m.start.t)
@@ -1146,10 +1322,36 @@ def corr_dec(text, res, ev):
             bl.append(W.f_tuple(str(b), "-"))
     tsp = sorted((W.as_fraction(o.start.t), int(o.beats), int(o.beat_type)) for o in lpart.iter_all(S.TimeSignature))
     ksp = sorted(W.as_fraction(o.start.t) for o in lpart.iter_all(S.KeySignature))
+    dec_impl = W.f_tuple(str(divs), "[" + ",".join(bl) + "]", W.f_rat(W.as_fraction(last_end)) if last_end is not None else "-",
+                         W.f_list(lambda x: W.f_tuple(W.f_rat(x[0]), str(x[1]), str(x[2])), tsp),
+                         W.f_list(W.f_rat, ksp), str(res.get("n_fallback", 0)))
     ev.requests.append("dec " + body)
-    ev.impl.append(W.f_tuple(str(divs), "[" + ",".join(bl) + "]", W.f_rat(W.as_fraction(last_end)) if last_end is not None else "-",
-                             W.f_list(lambda x: W.f_tuple(W.f_rat(x[0]), str(x[1]), str(x[2])), tsp),
-                             W.f_list(W.f_rat, ksp), str(res.get("n_fallback", 0))))
+    ev.impl.append(dec_impl)
+    rt_body = None
+    if desc is not None:
+        pd = desc["part"]
+        byid = {n["id"]: n for n in pd["notes"]}
+
+        def tied_dur(n):
+            du = n["dur"]
+            while n.get("tie"):
+                n = byid[n["tie"]]
+                du += n["dur"]
+            return du
+
+        if all(str(x.Anchor) in byid for x in sn):
+            vals_ks = []
+            kst = []
+            for t, f, m in sorted(pd["ks"]):
+                v = (f, m or "major")
+                if v not in vals_ks:
+                    vals_ks.append(v)
+                kst.append("%d %d" % (t, vals_ks.index(v)))
+            rt_body = "%s %s %s" % (score_tokens(pd),
+                                    W.lst(lambda x: "%d %d" % (byid[str(x.Anchor)]["t"], tied_dur(byid[str(x.Anchor)])), sn),
+                                    W.lst(lambda x: x, kst))
+            ev.requests.append("rtq " + rt_body)
+            ev.impl.append(dec_impl)
     lna = {}
     for n in lpart.notes_tied:
         lna.setdefault(n.id, n)
@@ -1159,6 +1361,9 @@ def corr_dec(text, res, ev):
         vals.append([float(n.start.t), float(n.duration_tied)] if n is not None else None)
     ev.requests.append("decn " + body)
     ev.impl.append(("@approx", vals, 1e-9))
+    if rt_body is not None:
+        ev.requests.append("rtn " + rt_body)
+        ev.impl.append(("@approx", vals, 1e-9))
     rests = [r for r in lpart.iter_all(S.Rest) if r.start.t == 0 and r.id is None]
     ev.requests.append("decr " + body)
     ev.impl.append(("@approx", float(rests[0].end.t), 1e-9) if rests else "-")
@@ -1238,8 +1443,9 @@ def eval_fixture(desc, ev):
     return ev
 
 
-def dedup_edit(seed):
-    """inject duplicate / conflicting note lines into a written file"""
+def dedup_edit(seed, generic=False):
+    """inject duplicate / conflicting note lines into a written file (generic: only the edits that do not depend on
+    the 1.0.0 layout of the note( ) part)"""
     def edit(text):
         rng = random.Random(seed)
         notes = [i for i, ln in enumerate(text) if ln.startswith(("snote(", "insertion-"))]
@@ -1258,9 +1464,12 @@ def dedup_edit(seed):
             elif r < 0.7 and matches:
                 m = rng.choice(matches)
                 extra.append("insertion-" + m[m.index(")-note(") + 2:])       # insertion conflicting with a match
-            elif r < 0.8 and dels:
+            elif r < 0.8 and dels and not generic:
                 dl = rng.choice(dels)
                 extra.append(dl.replace(",[", ",[dup,", 1) if ",[]" not in dl else dl.replace(",[]", ",[dup]"))  # second deletion, other text
+            elif generic:
+                if notes:
+                    extra.append(text[rng.choice(notes)])
             elif r < 0.9 and ins:
                 il = rng.choice(ins)
                 mm = NOTE_RE.search(il)
@@ -1272,7 +1481,7 @@ def dedup_edit(seed):
         for ln in extra:
             out.insert(rng.randint(min(notes) if notes else 0, len(out)), ln)
         if rng.random() < 0.3:
-            out.insert(rng.randint(1, len(out)), "")   # (the version line stays first: the reader takes the version from line 1)
+            out.insert(rng.randint(0, len(out)), "")   # also before the version line (fix C08-12)
         return out
     return edit
 
@@ -1338,6 +1547,22 @@ def evaluate_(desc):
         ev.info["grid"] = grid_ok(desc)
         ev.key = "rt:%s:%d" % (desc.get("sub"), len(desc["align"])) if "text" in res else None
         return ev
+    if k == "blank":
+        base = desc["base"]
+
+        def edit(text):
+            out = list(text)
+            for pos in sorted(desc["at"], reverse=True):
+                out.insert(min(pos, len(out)), "")
+            return out
+
+        res = save_and_load(base, edit_text=edit)
+        ev.oracle = oracle_rt(base, res)
+        corr_rt(base, res, ev)
+        ev.key = "blank:%s:%s" % (base.get("sub"), ",".join(map(str, desc["at"]))) if "text" in res else None
+        return ev
+    if k == "v0":
+        return eval_v0(desc, ev)
     if k == "fixture":
         return eval_fixture(desc, ev)
     if k == "dedup":
@@ -1352,6 +1577,19 @@ def shrink(desc):
 
     if desc.get("k") == "dedup":
         yield desc["base"]
+        return
+    if desc.get("k") == "v0":
+        if desc.get("dedup") is not None:
+            yield dict(desc, dedup=None)
+        for b in shrink(desc["base"]):
+            if any(a["label"] in ("match", "deletion") for a in b["align"]):
+                yield dict(desc, base=b)
+        return
+    if desc.get("k") == "blank":
+        for i in range(len(desc["at"])):
+            yield dict(desc, at=desc["at"][:i] + desc["at"][i + 1:])
+        for b in shrink(desc["base"]):
+            yield dict(desc, base=b)
         return
     if desc.get("k") != "rt":
         return
@@ -1400,6 +1638,8 @@ def distribution(descs, results):
                 c["label:" + a["label"]] += 1
         if d["k"] == "dedup":
             c["dedup_dropped:%s" % min(info.get("n_dropped", 0), 5)] += 1
+        if d["k"] == "v0":
+            c["v0:%s%s" % (info.get("v0", "synth-error" if info.get("synth_error") else "?"), ":dedup" if d.get("dedup") is not None else "")] += 1
     return dict(sorted(c.items()))
 
 
